@@ -318,7 +318,7 @@ def front_item_mode(prog, sl, with_spec=True):
             elif part == 'STRUCT':
                 cells += [('I', 'struct'), ('I', 'Y'), ('P', ';')]
             else:
-                cells += front.sym_item_segments('it.' + part, 'reduced' if part.startswith('r') else 'full')
+                cells += front.sym_item_segments('it.' + part, 'reduced' if part.startswith('r') else ('single-fn' if part.startswith('s') else 'full'))
         return cells
 
     def setup(ex):
